@@ -82,6 +82,7 @@ type Inode struct {
 type tracked struct {
 	buf    []byte
 	handle *File
+	orig   []byte // content when handed out (full capacity): memory returned by Slice belongs to the file system
 }
 
 // FS is the harness file system. It is not safe for concurrent use by free-running goroutines;
@@ -144,6 +145,21 @@ func (f *FS) hook(label, obj string, write bool, lo, hi int64) {
 	if f.Hook != nil {
 		f.Hook(label, obj, write, lo, hi)
 	}
+}
+
+// SlicesIntact reports whether any memory handed out by Slice (poison mode) that is still valid was
+// modified by somebody else than the file system: "" if intact, else a description.
+func (f *FS) SlicesIntact() string {
+	for name, in := range f.files {
+		for _, t := range in.slices {
+			for i := range t.buf {
+				if t.buf[i] != t.orig[i] {
+					return fmt.Sprintf("memory handed out by File.Slice of %s was written to by the caller of the database (offset %d of the returned region: %#x -> %#x)", name, i, t.orig[i], t.buf[i])
+				}
+			}
+		}
+	}
+	return ""
 }
 
 // OrphanHandles returns the number of open handles on files that no path names any more (unlinked
@@ -668,7 +684,16 @@ func (h *File) Slice(start int64, end int64) ([]byte, error) {
 	buf := append([]byte(nil), h.in.Data[start:end]...)
 	h.fs.Stats.BytesRead += end - start
 	if h.fs.Poison {
-		h.in.slices = append(h.in.slices, &tracked{buf: buf, handle: h})
+		// hand out a slice with spare capacity behind it (like a view into a larger mapping) and remember the
+		// whole region: a caller that writes into it - directly or by appending within the capacity - is caught
+		region := make([]byte, end-start, end-start+64)
+		copy(region, buf)
+		full := region[:cap(region)]
+		for i := end - start; i < int64(len(full)); i++ {
+			full[i] = 0x5C
+		}
+		buf = region
+		h.in.slices = append(h.in.slices, &tracked{buf: full, handle: h, orig: append([]byte(nil), full...)})
 		h.fs.Stats.SlicesHanded++
 	}
 	return buf, nil
